@@ -2,6 +2,7 @@
 // abstract JSON document model; "checkpoint" operations stringify a history-built tree into a stream with
 // pre-existing content, store it, parse it back and compare (round trip, fixed point, strict RFC 8259 validity).
 #include "common.hpp"
+#include <functional>
 #include "docmodel.hpp"
 
 #include <cfloat>
@@ -31,14 +32,14 @@ enum VOp {
     V_ASSIGN_SCALAR = 0, V_ASSIGN_STRING, V_ASSIGN_CONTAINER, V_ASSIGN_VALUE_COPY, V_ASSIGN_VALUE_MOVE, V_APPEND_SCALAR,
     V_APPEND_STRING, V_APPEND_CONTAINER, V_APPEND_VALUE_COPY, V_APPEND_VALUE_MOVE, V_SUBSCRIPT_KEY, V_SUBSCRIPT_INDEX,
     V_GET_KEY, V_INSERT, V_MERGE_COPY, V_MERGE_MOVE, V_REMOVE_KEY, V_REMOVE_INDEX, V_RESET, V_COMPRESS, V_ROOT_COPY_CTOR,
-    V_ROOT_MOVE_CTOR, V_ROOT_CTOR, V_SET_POINTER, V_ADD_POINTER, V_ASSIGN_TYPE, V_SELF_ASSIGN, V_ASSIGN_OWN_TEXT, V_POINTEE_UPDATE, V_CHECKPOINT, V_COUNT
+    V_ROOT_MOVE_CTOR, V_ROOT_CTOR, V_SET_POINTER, V_ADD_POINTER, V_ASSIGN_TYPE, V_SELF_ASSIGN, V_ASSIGN_OWN_TEXT, V_POINTEE_UPDATE, V_CONTAINER_FROM_DESC, V_CHECKPOINT, V_COUNT
 };
 static const char *v_op_name[] = {"assign-scalar", "assign-string", "assign-container", "assign-value-copy",
                                   "assign-value-move", "append-scalar", "append-string", "append-container",
                                   "append-value-copy", "append-value-move", "subscript-key", "subscript-index",
                                   "get-key", "insert", "merge-copy", "merge-move", "remove-key", "remove-index", "reset",
                                   "compress", "root-copy-ctor", "root-move-ctor", "root-ctor", "set-pointer",
-                                  "add-pointer", "assign-type", "self-assign", "assign-own-text", "pointee-update", "checkpoint"};
+                                  "add-pointer", "assign-type", "self-assign", "assign-own-text", "pointee-update", "container-from-descendant", "checkpoint"};
 
 static const double nice_doubles[] = {0.0, -0.0, 1.0, -1.0, 0.5, -2.25, 1.0 / 3.0, 0.1, 0.3, 123456.789, 1e15, 9007199254740993.0,
                                       1e300, -1e-300, DBL_MAX, DBL_MIN, 4.9406564584124654e-324, 3.141592653589793, 2.5e-5, 1e21, 1e-7};
@@ -792,6 +793,74 @@ struct ValW {
                 assign_in_own_unit(*v, static_cast<const VT &>(*v));
                 break;
             }
+            case V_CONTAINER_FROM_DESC: {
+                // container-level assignment (through GetObject() / GetArray()) whose source is a container of the same
+                // kind held somewhere INSIDE the destination. Array and HashTable copy- and move-assignment are written
+                // for exactly this case (they adopt / copy first and release the old content last).
+                if (n->kind != Node::Object && n->kind != Node::Array) return;
+                std::vector<std::pair<bool, size_t>> path, best; // (by key?, position)
+                {
+                    // depth-first search for descendants of the same kind; the tok-th one found is taken
+                    size_t                                      want = 1 + (size_t)(tok % 5), found = 0;
+                    std::function<void(const Node &, int)> walk = [&](const Node &cur, int depth) {
+                        if (depth > 3 || found >= want) return;
+                        size_t cnt = cur.kind == Node::Object ? cur.members.size() : cur.kind == Node::Array ? cur.items.size() : 0;
+                        for (size_t i = 0; i < cnt && found < want; i++) {
+                            const Node &c = cur.kind == Node::Object ? cur.members[i].second : cur.items[i];
+                            if (c.kind == Node::Undefined || c.kind == Node::Ptr) continue;
+                            path.emplace_back(cur.kind == Node::Object, i);
+                            if (c.kind == n->kind) {
+                                found++;
+                                best = path;
+                            }
+                            if (c.kind == Node::Object || c.kind == Node::Array) walk(c, depth + 1);
+                            path.pop_back();
+                        }
+                    };
+                    walk(*n, 0);
+                }
+                if (best.empty()) return;
+                const Node *dn = n;
+                VT         *dv = v;
+                for (auto &st : best) {
+                    VT *child = nullptr;
+                    if (st.first) {
+                        ArenaText<C> kt(dn->members[st.second].first);
+                        LibCall      lc;
+                        ObjT        *o = dv->GetObject();
+                        child          = o ? o->GetValue((const C *)kt.ptr, (SizeT)kt.len) : nullptr;
+                        dn             = &dn->members[st.second].second;
+                    } else {
+                        if (dn->had_removal) return;
+                        LibCall lc;
+                        ArrT   *a = dv->GetArray();
+                        child     = (a && st.second < a->Size()) ? a->Storage() + st.second : nullptr;
+                        dn        = &dn->items[st.second];
+                    }
+                    if (child == nullptr) return; // (holes in an array: positions are not comparable; give up quietly)
+                    dv = child;
+                }
+                bool move  = (var & 1) != 0;
+                Node taken = move ? *dn : deep_copy(*dn); // (a library copy is compact at every level; a move keeps the holes)
+                qsim::probe("value.container-from-descendant");
+                {
+                    LibCall lc;
+                    if (n->kind == Node::Object) {
+                        if (move)
+                            assign_in_own_unit(*v->GetObject(), static_cast<ObjT &&>(*dv->GetObject()));
+                        else
+                            assign_in_own_unit(*v->GetObject(), static_cast<const ObjT &>(*dv->GetObject()));
+                    } else {
+                        if (move)
+                            assign_in_own_unit(*v->GetArray(), static_cast<ArrT &&>(*dv->GetArray()));
+                        else
+                            assign_in_own_unit(*v->GetArray(), static_cast<const ArrT &>(*dv->GetArray()));
+                    }
+                }
+                if (!move) taken.had_removal = false; // a copied table is compact
+                *n = taken;
+                break;
+            }
             case V_ASSIGN_OWN_TEXT: {
                 // the new content is text the target itself owns: a sub-range of its own string, or a string somewhere
                 // beneath it. Every string-taking assignment has to read it before releasing the old content.
@@ -1408,6 +1477,10 @@ static void generate(Plan &plan, uint64_t seed, int tier) {
         // a page, many rehashes), holes punched into it, then the keyed / indexed writes, compress, copies, merges and
         // checkpoints that have to rebuild or extend it
         plan.cfg["scenario"] = 2;
+        // a thousand members stringified under exact-fit growth by a scalar byte loop is legitimately 10^8 steps: no
+        // fixed budget separates that from a hang, so these runs are abandoned past the budget, not reported
+        plan.cfg["soft_budget"] = 1;
+        plan.cfg["exact_fit"]   = 0;
         int  j    = (int)cfg.below(2);
         bool obj  = cfg.chance(2, 3);
         auto push = [&](int kind, const U32 &k1, int64_t tok, int64_t var, bool light, int64_t root) {
